@@ -554,6 +554,9 @@ def run_schemas(ck: Check, be: bool, items: List[Dict[str, Any]], tag: str, all_
             stats["t1_failed"] = stats.get("t1_failed", 0) + 1
             if stats["t1_failed"] <= 3:
                 ck.broken(Broken(f"tie T1 (emitted C descriptors) on schema {it['origin']}: {e}", json.dumps(s.texts)[:2000]))
+        if E == "BE":
+            exprs.append(f"(bex_case t_{i})")
+            metas.append((i, "store", 0, None))
         if all_langs and "consts" in r:
             cs = r["consts"]
             for m in _msgs(s.top):
